@@ -38,53 +38,53 @@ def J(test, quick, thorough, steps=40, race=False, kind="rapid", env=None, timeo
 
 CHECKS = {
     "C01": dict(level="exploration", jobs=[J("TestC01", (4, 1500), (16, 12000), steps=45)],
-                rule="one case = one generated API history (publish/delete/trim/compact/GC/sync/reopen with re-drawn options, index removal, migrate, package-level tools) executed against a real log and the reference model with a full scan from OffsetOldest after every step; non-trivial = the history reached >=2 segments AND contains a delete or a reopen; distinct = hash of the concrete operation trace"),
+                rule="one case = one generated API history (publish/delete/trim/compact/GC/sync/reopen with re-drawn options, index removal, migrate, package-level tools) executed against a real log and the reference model with a full scan from OffsetOldest after every step; non-trivial = the history reached >=2 segments AND contains a delete or a reopen; distinct = hash of the concrete operation trace. Dimensions drawn per case or step in every history job: index configuration; rollover size (incl. exactly the head's size, +-1); NewSegmentsVersion/KeepRewriteVersion/EagerVersionMigrate/Check/Recover/AutoSync re-drawn at every open; index files removed and segment files replaced by symbolic links while closed; directory name (glob/shell characters) and spelling; message times monotone / arbitrary / zero (stamped by the log) / far future / with nanoseconds and a zone / before 1970; keys incl. nil, empty, hash collisions and keys of 300, 5000 and 70000 bytes; values up to 70 KB; a rejected (too big) message at a drawn position of a batch; offsets and bounds up to MaxInt64; nil map/slice; Multi calls with the library's back-off or one that fails / cancels; the invariant after every step or only every n-th (lazy state); read-only sessions incl. GC; a missing key/value is handed out the same way (nil or empty) every time"),
     "C02": dict(level="exploration", jobs=[J("TestC02", (4, 1500), (16, 12000), steps=45)],
-                rule="one case = one generated history biased to delete-newest/delete-all/empty batch/reopen; after every Publish the returned offset, the written-back offsets, and after every step NextOffset/Sync are compared with the model counter (which never decreases, so reuse is a mismatch); non-trivial = history contains (tail-or-all delete) -> reopen -> publish; distinct by trace hash"),
+                rule="one case = one generated history biased to delete-newest/delete-all/empty batch/reopen; after every Publish the returned offset, the written-back offsets, and after every step NextOffset/Sync are compared with the model counter (which never decreases, so reuse is a mismatch); non-trivial = history contains (tail-or-all delete) -> reopen -> publish; distinct by trace hash. Dimensions drawn per case or step in every history job: index configuration; rollover size (incl. exactly the head's size, +-1); NewSegmentsVersion/KeepRewriteVersion/EagerVersionMigrate/Check/Recover/AutoSync re-drawn at every open; index files removed and segment files replaced by symbolic links while closed; directory name (glob/shell characters) and spelling; message times monotone / arbitrary / zero (stamped by the log) / far future / with nanoseconds and a zone / before 1970; keys incl. nil, empty, hash collisions and keys of 300, 5000 and 70000 bytes; values up to 70 KB; a rejected (too big) message at a drawn position of a batch; offsets and bounds up to MaxInt64; nil map/slice; Multi calls with the library's back-off or one that fails / cancels; the invariant after every step or only every n-th (lazy state); read-only sessions incl. GC; a missing key/value is handed out the same way (nil or empty) every time"),
     "C03": dict(level="exploration", jobs=[J("TestC03", (4, 1000), (16, 8000), steps=40)],
-                rule="one case = one history; after every step Consume is called at every offset in [-5, NextOffset+2] with maxCount cycling through {1,2,3,5,8,40} and checked with a validity predicate over the model, plus the feed-back iteration from OffsetOldest; non-trivial = a sweep happened on a state with >=2 segments and at least one queried offset inside a hole; distinct by trace hash"),
+                rule="one case = one history; after every step Consume is called at every offset in [-5, NextOffset+2] with maxCount cycling through {1,2,3,5,8,40} and checked with a validity predicate over the model, plus the feed-back iteration from OffsetOldest; non-trivial = a sweep happened on a state with >=2 segments and at least one queried offset inside a hole; distinct by trace hash. Dimensions drawn per case or step in every history job: index configuration; rollover size (incl. exactly the head's size, +-1); NewSegmentsVersion/KeepRewriteVersion/EagerVersionMigrate/Check/Recover/AutoSync re-drawn at every open; index files removed and segment files replaced by symbolic links while closed; directory name (glob/shell characters) and spelling; message times monotone / arbitrary / zero (stamped by the log) / far future / with nanoseconds and a zone / before 1970; keys incl. nil, empty, hash collisions and keys of 300, 5000 and 70000 bytes; values up to 70 KB; a rejected (too big) message at a drawn position of a batch; offsets and bounds up to MaxInt64; nil map/slice; Multi calls with the library's back-off or one that fails / cancels; the invariant after every step or only every n-th (lazy state); read-only sessions incl. GC; a missing key/value is handed out the same way (nil or empty) every time"),
     "C04": dict(level="exploration", jobs=[J("TestC04", (4, 1000), (16, 8000), steps=40)],
-                rule="one case = one history; after every step Get at every offset in [0, NextOffset+2] and both relative offsets, classified live/deleted/unassigned by the model, and compared with Consume(offset,1); non-trivial = a deleted offset was queried on a state with >=2 segments; distinct by trace hash"),
+                rule="one case = one history; after every step Get at every offset in [0, NextOffset+2] and both relative offsets, classified live/deleted/unassigned by the model, and compared with Consume(offset,1); non-trivial = a deleted offset was queried on a state with >=2 segments; distinct by trace hash. Dimensions drawn per case or step in every history job: index configuration; rollover size (incl. exactly the head's size, +-1); NewSegmentsVersion/KeepRewriteVersion/EagerVersionMigrate/Check/Recover/AutoSync re-drawn at every open; index files removed and segment files replaced by symbolic links while closed; directory name (glob/shell characters) and spelling; message times monotone / arbitrary / zero (stamped by the log) / far future / with nanoseconds and a zone / before 1970; keys incl. nil, empty, hash collisions and keys of 300, 5000 and 70000 bytes; values up to 70 KB; a rejected (too big) message at a drawn position of a batch; offsets and bounds up to MaxInt64; nil map/slice; Multi calls with the library's back-off or one that fails / cancels; the invariant after every step or only every n-th (lazy state); read-only sessions incl. GC; a missing key/value is handed out the same way (nil or empty) every time"),
     "C08": dict(level="exploration", jobs=[J("TestC08Windows", (4, 1200), (16, 15000), timeout=(900, 5400)), J("TestC08Stress", (4, 3), (16, 10), race=True, kind="plain", timeout=(900, 5400)),
                                                  J("TestC08Windows", (4, 300), (16, 4000), race=True, env={"VF_TIMED": "1"}, timeout=(900, 5400)),
                                                  J("TestC08Duets", (4, 0), (12, 0), race=True, kind="plain", timeout=(900, 5400)),
                                                  J("TestC08BigAppends", (4, 0), (8, 0), kind="plain", timeout=(600, 1800))],
-                rule="windows job: one evaluation = one owned schedule: a generated sequential prefix (publish/delete/GC on a small-rollover log), then call A (Publish with/without rollover, Delete on head/reader segment, a read, GC) held at the k-th occurrence of one of 11 pause points while up to two further complete calls (any of Publish, Consume, ConsumeByKey, Get, GetByKey, GetByTime, Delete, NextOffset, Sync, GC, Stat) are issued, then A is released; oracle = brute-force linearization of the <=3 calls (some order consistent with real time replays on the reference model with every observed result admissible, no error the sequential contract does not allow); non-trivial = the armed point was actually reached; distinct by (point, call kinds, occurrence, case hash). stress job (built with -race): one evaluation = one API call inside a seeded free-running mix (1-3 publishers, 1-2 deleters aimed at the head, 1-3 cursor readers doing all read calls, GC/Stat/Sync) with timed sleeps at the pause points; oracle = Go race detector + history invariants (disjoint dense offset ranges, content never changes, nothing disappears or is stepped over unless a Delete reported it, no call fails because of concurrent activity, final content == published minus reported deleted); non-trivial round = at least one rollover and one delete of the newest message. Half of the window cases are focused templates (delete in the writing segment while a publish rolls it over, publish vs delete/GC/Stat/Sync, GC vs reads and deletes in the unloaded segment). A duets job (-race) runs 12 pairs of call kinds x KeepRewriteVersion on/off with only two goroutines, because in the full mix the detector's 4-entry access history of a hot address is usually overwritten by properly locked readers before the racy access happens. The windows job also runs on the -race binary in timed mode (A is held by a sleep instead of a channel, so the detector sees the other calls as concurrent with the rest of A)",
+                rule="windows job: one evaluation = one owned schedule: a generated sequential prefix (publish/delete/GC on a small-rollover log), then call A (Publish with/without rollover, Delete on head/reader segment, a read, GC) held at the k-th occurrence of one of 11 pause points while up to two further complete calls (any of Publish, Consume, ConsumeByKey, Get, GetByKey, GetByTime, Delete, NextOffset, Sync, GC, Stat) are issued, then A is released; oracle = brute-force linearization of the <=3 calls (some order consistent with real time replays on the reference model with every observed result admissible, no error the sequential contract does not allow); non-trivial = the armed point was actually reached; distinct by (point, call kinds, occurrence, case hash). stress job (built with -race): one evaluation = one API call inside a seeded free-running mix (1-3 publishers, 1-2 deleters aimed at the head, 1-3 cursor readers doing all read calls, GC/Stat/Sync) with timed sleeps at the pause points; oracle = Go race detector + history invariants (disjoint dense offset ranges, content never changes, nothing disappears or is stepped over unless a Delete reported it, no call fails because of concurrent activity, final content == published minus reported deleted); non-trivial round = at least one rollover and one delete of the newest message. Half of the window cases are focused templates (delete in the writing segment while a publish rolls it over, publish vs delete/GC/Stat/Sync, GC vs reads and deletes in the unloaded segment). A duets job (-race) runs 12 pairs of call kinds x KeepRewriteVersion on/off with only two goroutines, because in the full mix the detector's 4-entry access history of a hot address is usually overwritten by properly locked readers before the racy access happens. The windows job also runs on the -race binary in timed mode (A is held by a sleep instead of a channel, so the detector sees the other calls as concurrent with the rest of A). Further window features: A may be held at a file-system step, a deadlock is reported when all unreturned calls are parked in a mutex wait in one stop-the-world goroutine snapshot (never on elapsed time), one or two sequential calls may follow the window before the observation, cases with Rollover equal to the head's size. Duets job (-race): two goroutines, 14 pairs of call kinds. BigAppends job (plain binary): records of 3000-70000 bytes appended against Delete/Consume/lookups of the head",
                 level_note="interleavings reachable through the listed pause points plus what the seeded stress happens to hit; the race detector only reports races that execute; free-running runs are not reproducible by construction (their replay file is the recorded history / race report)"),
     "C09": dict(level="exploration", jobs=[J("TestC09", (4, 500), (16, 5000), steps=40)],
-                rule="one case = one history over a key universe with nil, empty, prefix-related keys and three real FNV-1a-64 collision pairs; after every step GetByKey/OffsetByKey/ConsumeByKey (iteration and every cursor offset) for every key incl. absent ones; non-trivial = a lookup ran while a different key with the same hash was live; distinct by trace hash"),
+                rule="one case = one history over a key universe with nil, empty, prefix-related keys and three real FNV-1a-64 collision pairs; after every step GetByKey/OffsetByKey/ConsumeByKey (iteration and every cursor offset) for every key incl. absent ones; non-trivial = a lookup ran while a different key with the same hash was live; distinct by trace hash. Dimensions drawn per case or step in every history job: index configuration; rollover size (incl. exactly the head's size, +-1); NewSegmentsVersion/KeepRewriteVersion/EagerVersionMigrate/Check/Recover/AutoSync re-drawn at every open; index files removed and segment files replaced by symbolic links while closed; directory name (glob/shell characters) and spelling; message times monotone / arbitrary / zero (stamped by the log) / far future / with nanoseconds and a zone / before 1970; keys incl. nil, empty, hash collisions and keys of 300, 5000 and 70000 bytes; values up to 70 KB; a rejected (too big) message at a drawn position of a batch; offsets and bounds up to MaxInt64; nil map/slice; Multi calls with the library's back-off or one that fails / cancels; the invariant after every step or only every n-th (lazy state); read-only sessions incl. GC; a missing key/value is handed out the same way (nil or empty) every time"),
     "C10": dict(level="exploration", jobs=[J("TestC10", (4, 1200), (16, 10000), steps=40)],
-                rule="one case = one history with non-decreasing times and equal-timestamp runs, rollover re-drawn at every open; after every step GetByTime/OffsetByTime at every microsecond from min-1 to max+1; non-trivial = time-indexed log where an answered run of equal timestamps existed on a multi-segment state, or the head segment was emptied by a tail delete; distinct by trace hash"),
+                rule="one case = one history with non-decreasing times and equal-timestamp runs, rollover re-drawn at every open; after every step GetByTime/OffsetByTime at every microsecond from min-1 to max+1; non-trivial = time-indexed log where an answered run of equal timestamps existed on a multi-segment state, or the head segment was emptied by a tail delete; distinct by trace hash. Dimensions drawn per case or step in every history job: index configuration; rollover size (incl. exactly the head's size, +-1); NewSegmentsVersion/KeepRewriteVersion/EagerVersionMigrate/Check/Recover/AutoSync re-drawn at every open; index files removed and segment files replaced by symbolic links while closed; directory name (glob/shell characters) and spelling; message times monotone / arbitrary / zero (stamped by the log) / far future / with nanoseconds and a zone / before 1970; keys incl. nil, empty, hash collisions and keys of 300, 5000 and 70000 bytes; values up to 70 KB; a rejected (too big) message at a drawn position of a batch; offsets and bounds up to MaxInt64; nil map/slice; Multi calls with the library's back-off or one that fails / cancels; the invariant after every step or only every n-th (lazy state); read-only sessions incl. GC; a missing key/value is handed out the same way (nil or empty) every time"),
     "C11": dict(level="exploration", jobs=[J("TestC11", (4, 350), (16, 3000), steps=35)],
-                rule="one case = one history; at every close every index file is compared with the index derived from its log by the independent parser, and the directory is copied and reopened (RW and RO alternating) with all / each single (thorough: random subsets of) index files removed and fully observed against the model; non-trivial = an index of a non-head segment was removed, or a multi-segment log with deletes/migration was closed and reopened; distinct by trace hash"),
+                rule="one case = one history; at every close every index file is compared with the index derived from its log by the independent parser, and the directory is copied and reopened (RW and RO alternating) with all / each single (thorough: random subsets of) index files removed and fully observed against the model; non-trivial = an index of a non-head segment was removed, or a multi-segment log with deletes/migration was closed and reopened; distinct by trace hash. Dimensions drawn per case or step in every history job: index configuration; rollover size (incl. exactly the head's size, +-1); NewSegmentsVersion/KeepRewriteVersion/EagerVersionMigrate/Check/Recover/AutoSync re-drawn at every open; index files removed and segment files replaced by symbolic links while closed; directory name (glob/shell characters) and spelling; message times monotone / arbitrary / zero (stamped by the log) / far future / with nanoseconds and a zone / before 1970; keys incl. nil, empty, hash collisions and keys of 300, 5000 and 70000 bytes; values up to 70 KB; a rejected (too big) message at a drawn position of a batch; offsets and bounds up to MaxInt64; nil map/slice; Multi calls with the library's back-off or one that fails / cancels; the invariant after every step or only every n-th (lazy state); read-only sessions incl. GC; a missing key/value is handed out the same way (nil or empty) every time. Also at every close: index timestamps are a running maximum of the message times in the file from one carried value >= 0 (any times)"),
     "C12": dict(level="exploration", jobs=[J("TestC12", (4, 1200), (16, 10000), steps=45)],
-                rule="one case = one history biased to deletes of every shape; every delete is checked: returned subset of requested and live, byte-equal content, exact size from the segment file version, relative/empty/repeat rules, then the full scan equals the pre-state minus the returned messages; non-trivial = >=2 different structural delete outcomes (segment role x same-base/rebased/emptied/tail) or one outcome plus a reopen; distinct by trace hash"),
+                rule="one case = one history biased to deletes of every shape; every delete is checked: returned subset of requested and live, byte-equal content, exact size from the segment file version, relative/empty/repeat rules, then the full scan equals the pre-state minus the returned messages; non-trivial = >=2 different structural delete outcomes (segment role x same-base/rebased/emptied/tail) or one outcome plus a reopen; distinct by trace hash. Dimensions drawn per case or step in every history job: index configuration; rollover size (incl. exactly the head's size, +-1); NewSegmentsVersion/KeepRewriteVersion/EagerVersionMigrate/Check/Recover/AutoSync re-drawn at every open; index files removed and segment files replaced by symbolic links while closed; directory name (glob/shell characters) and spelling; message times monotone / arbitrary / zero (stamped by the log) / far future / with nanoseconds and a zone / before 1970; keys incl. nil, empty, hash collisions and keys of 300, 5000 and 70000 bytes; values up to 70 KB; a rejected (too big) message at a drawn position of a batch; offsets and bounds up to MaxInt64; nil map/slice; Multi calls with the library's back-off or one that fails / cancels; the invariant after every step or only every n-th (lazy state); read-only sessions incl. GC; a missing key/value is handed out the same way (nil or empty) every time"),
     "C05": dict(level="fault_enumeration", jobs=[J("TestC05", (8, 40), (16, 350), timeout=(1200, 7200))],
-                rule="one evaluation = one crash image checked: a generated workload (publish batches with frequent rollover, single Delete in reader/head segments incl. rebasing/emptying/tail, reopen plain/Recover/EagerVersionMigrate/index files removed + lazy rebuild, package Migrate/Recover, Sync, GC) runs to completion under the FS tap, which snapshots the directory after EVERY file-system step; each snapshot is an image, each record/index-item append additionally yields torn variants (quick: 10 cut points, thorough: every byte), and the recovery of every n-th image / torn cut is itself run under the tap for depth-2 images; oracle = Open(Recover) succeeds, scan is one of the admissible logs computed from the uncrashed run, all views agree, NextOffset not backwards, second Recover byte-identical, appendable, Check passes; non-trivial = image directory differs from both the pre- and post-operation directory; distinct by (kind, op, delete outcome, FS site, normalised listing)",
+                rule="one evaluation = one crash image checked: a generated workload (publish batches with frequent rollover, single Delete in reader/head segments incl. rebasing/emptying/tail, reopen plain/Recover/EagerVersionMigrate/index files removed + lazy rebuild, package Migrate/Recover, Sync, GC) runs to completion under the FS tap, which snapshots the directory after EVERY file-system step; each snapshot is an image, each record/index-item append additionally yields torn variants (quick: 10 cut points, thorough: every byte), and the recovery of every n-th image / torn cut is itself run under the tap for depth-2 images; oracle = Open(Recover) succeeds, scan is one of the admissible logs computed from the uncrashed run, all views agree, NextOffset not backwards, second Recover byte-identical, appendable, Check passes; non-trivial = image directory differs from both the pre- and post-operation directory; distinct by (kind, op, delete outcome, FS site, normalised listing). Every 5th image is also recovered with Recover + the other NewSegmentsVersion + EagerVersionMigrate; every 4th image and every image of a crashed Delete is used further after recovery (one Delete per segment, Check, segment files re-read with the reference parser)",
                 level_note="granularity is the FS step plus torn appends; 8-byte file headers atomic (no file of length 1..7), as the property states; no reordering inside the kernel; relies on the verif-tag FS tap being complete (self-checked on every run: an unexplained directory change makes the run inconclusive)"),
     "C06": dict(level="fault_enumeration", jobs=[J("TestC06", (8, 150), (16, 2000), timeout=(1200, 7200)), J("TestC06Concurrent", (2, 3), (8, 8), kind="plain")],
                 rule="one evaluation = one power-loss image checked: same workloads as C05 plus Sync operations and AutoSync configurations; the tap tracks per file (followed across renames) the length at its last fsync; at every FS step images are synthesised under the stated tail-loss model: every file independently cut to a length in [fsynced, current] (all-min, each-file-min/others-max and vice versa, random vectors incl. record boundaries +-1, never a length in 1..7), directory entries as in the current directory; oracle = Open(Recover) succeeds, the scan is a prefix of an admissible log containing every live message below the acknowledged offset w (latest Sync return / AutoSync Publish return / Close), NextOffset >= w, views agree, appendable, Check passes; non-trivial = at least one file strictly shorter than current and w > 0; distinct by (op, FS site, w, listing). A second job runs 2-4 free-running publishers against a Sync loop (the writer mutex is pushed into starvation mode by holding it >1 ms at a pause point): every time Sync returns w, the durable prefixes of all files as of that moment (fsynced lengths from the tap; the files are append-only in this mix) are recovered and must hold every offset below w",
                 level_note="a simulation of the storage model the property states (per-file tail loss, directory operations durable in program order), not a disk; soundness depends on complete FS taps (self-checked; a gap makes the run inconclusive)"),
     "C07": dict(level="fault_enumeration", jobs=[J("TestC07", (4, 25), (16, 60)), J("FuzzRecoverBytes", (0, 0), (1, 60), kind="fuzz")],
-                rule="one evaluation = one damaged head segment: a segment of 1..6 generated messages (four index configurations, V2; V1 for truncation only) written by the repository's writers, then EVERY truncation length (0, >=8), every byte position after the header (quick: one bit + 0x00 + 0xFF; thorough: all 8 bits), zero/0xFF/pattern tails of every length up to two records, and every index damage (missing, every truncation, every byte, extra items, other layout/container); oracle = independent reference parser (longest valid prefix, derived index); non-trivial = valid prefix is proper and non-empty, or only the index is damaged; distinct by (segment hash, damage)",
+                rule="one evaluation = one damaged head segment: a segment of 1..6 generated messages (four index configurations, V2; V1 for truncation only) written by the repository's writers, then EVERY truncation length (0, >=8), every byte position after the header (quick: one bit + 0x00 + 0xFF; thorough: all 8 bits), zero/0xFF/pattern tails of every length up to two records, and every index damage (missing, every truncation, every byte, extra items, other layout/container); oracle = independent reference parser (longest valid prefix, derived index); non-trivial = valid prefix is proper and non-empty, or only the index is damaged; distinct by (segment hash, damage). Every 6th (thorough: 2nd) log damage is also tried with the index missing and with an index without items; damage that recomputes the checksum of the record it hits (forged trailer / forged value)",
                 exhaustive_note="per generated segment the enumerated damage space is complete (thorough) / complete for truncations and index damage, sampled bits for byte corruption (quick)"),
     "C13": dict(level="exploration", jobs=[J("TestC13Codec", (4, 15000), (16, 150000)), J("TestC13Hist", (2, 800), (8, 6000), steps=40), J("FuzzParseDifferential", (0, 0), (1, 60), kind="fuzz"), J("TestC13Boundary", (1, 0), (1, 0), kind="plain")],
-                rule="codec job: one case = up to 5 generated messages (key/value 0..300 B plus 4 KiB/70 KiB, times over the whole int64 microsecond range, offsets up to MaxInt64) x V1/V2 x file/mmap reader x four index layouts x both index containers: writer bytes == independent encoder for log and index, reported positions, Size, readers on independently encoded files, parser agreement on a damaged copy; history job: Stat and Log.Size against os.Stat after every step; non-trivial codec case = >=2 records or an empty key/value or a boundary time; history case = multi-segment with deletes; distinct by case hash. History job also checks at every close that index timestamps are a running maximum of the message times in the file from one carried value (any times). Boundary job: fixed enumeration of the largest accepted message sizes (64 MiB and neighbours) through both readers and through Publish/Consume/reopen with Recover/Check"),
+                rule="codec job: one case = up to 5 generated messages (key/value 0..300 B plus 4 KiB/70 KiB, times over the whole int64 microsecond range, offsets up to MaxInt64) x V1/V2 x file/mmap reader x four index layouts x both index containers: writer bytes == independent encoder for log and index, reported positions, Size, readers on independently encoded files, parser agreement on a damaged copy; history job: Stat and Log.Size against os.Stat after every step; non-trivial codec case = >=2 records or an empty key/value or a boundary time; history case = multi-segment with deletes; distinct by case hash. History job also checks at every close that index timestamps are a running maximum of the message times in the file from one carried value (any times). Boundary job: fixed enumeration of the largest accepted message sizes (64 MiB and neighbours) through both readers and through Publish/Consume/reopen with Recover/Check. Codec damage includes changes that recompute the record checksum; the fuzz target compares each input also with all frame checksums recomputed"),
     "C14": dict(level="fault_enumeration", jobs=[J("TestC14", (4, 40), (16, 20)), J("FuzzDamageRead", (0, 0), (1, 90), kind="fuzz")],
-                rule="one evaluation = one damage of one .log file of a generated multi-segment V2 log (4..14 messages, deletes, index files intact): bit flip, 1-8 byte overwrite, truncation, zero-filled tail (quick: one position per record field + length-field high bits + 5 cut points per record; thorough: every position, all bits), then a fresh Open and Get/Consume at every offset, GetByKey/ConsumeByKey for every key, GetByTime at every microsecond, each compared with the same call on the undamaged copy and the model (safety, must-fail, unchanged, no panic, <=256 MiB per call); non-trivial = damage inside a record; distinct by (log hash, damage, field hit, segment role). Thorough adds a 90 s coverage-guided campaign (FuzzDamageRead: log x segment x position x 1-8 bytes) under the same oracle"),
+                rule="one evaluation = one damage of one .log file of a generated multi-segment V2 log (4..14 messages, deletes, index files intact): bit flip, 1-8 byte overwrite, truncation, zero-filled tail (quick: one position per record field + length-field high bits + 5 cut points per record; thorough: every position, all bits), then a fresh Open and Get/Consume at every offset, GetByKey/ConsumeByKey for every key, GetByTime at every microsecond, each compared with the same call on the undamaged copy and the model (safety, must-fail, unchanged, no panic, <=256 MiB per call); non-trivial = damage inside a record; distinct by (log hash, damage, field hit, segment role). Thorough adds a 90 s coverage-guided campaign (FuzzDamageRead: log x segment x position x 1-8 bytes) under the same oracle. A quarter of the in-place overwrites are applied under an open handle that has already read every record; after a third of the overwrites an undamaged offset of the damaged segment is deleted and everything re-read"),
     "C18": dict(level="exploration", jobs=[J("TestC18", (4, 10000), (16, 100000)), J("TestC18Exhaustive", (3, 0), (8, 0), kind="plain", timeout=(900, 5400)), J("TestC18Free", (2, 300), (8, 3000))],
-                rule="one evaluation = one complete schedule of a cooperative scheduler inside a testing/synctest bubble: up to 8 waiters (ConsumeBlocking / ConsumeByKeyBlocking, raw and typed wrappers, offsets below/at/above NextOffset and relative), up to 3 publishers (incl. empty batches), cancellations and Close; every goroutine parks at each pause point of the notifier and the blocking wrappers, and each step (resume one parked goroutine / start a call / cancel / Close) is a rapid draw; additionally the complete choice tree is enumerated with an odometer for W=1,P=1 (plain, +cancel, +close, typed), W=1,P=0 (+cancel+close), W=1,P=2 (thorough: W=2,P=1 and W=2,P=1+close), and seeded free-running mixes run without pauses; oracle at every step: a returned waiter had a reason (offset below NextOffset / relative / overlapping Publish, Close, cancel), its result equals what Consume returned at the moment it left the wait, and at FULL quiescence no waiter is blocked that a completed Publish passed, whose context ended, or after Close completed; non-trivial = a Publish-notify, Close or cancel step was taken while a waiter stood between the fast-path check and its park; distinct by (configuration, choice sequence)",
+                rule="one evaluation = one complete schedule of a cooperative scheduler inside a testing/synctest bubble: up to 8 waiters (ConsumeBlocking / ConsumeByKeyBlocking, raw and typed wrappers, offsets below/at/above NextOffset and relative), up to 3 publishers (incl. empty batches), cancellations and Close; every goroutine parks at each pause point of the notifier and the blocking wrappers, and each step (resume one parked goroutine / start a call / cancel / Close) is a rapid draw; additionally the complete choice tree is enumerated with an odometer for W=1,P=1 (plain, +cancel, +close, typed), W=1,P=0 (+cancel+close), W=1,P=2 (thorough: W=2,P=1 and W=2,P=1+close), and seeded free-running mixes run without pauses; oracle at every step: a returned waiter had a reason (offset below NextOffset / relative / overlapping Publish, Close, cancel), its result equals what Consume returned at the moment it left the wait, and at FULL quiescence no waiter is blocked that a completed Publish passed, whose context ended, or after Close completed; non-trivial = a Publish-notify, Close or cancel step was taken while a waiter stood between the fast-path check and its park; distinct by (configuration, choice sequence). Up to three other calls on the same handle (Sync, GC, Stat, NextOffset, Delete, Consume, Backup) may be placed anywhere in a schedule (also in three exhaustive configurations): no waiter may notice them; the wrapper is also opened on a non-empty log",
                 level_note="interleavings at the granularity of the listed pause points (verif build tag); Go's select between two simultaneously ready wake-up causes is resolved by the runtime, not by the scheduler; virtual time, no wall clock"),
     "C19": dict(level="exploration", jobs=[J("TestC19Handles", (2, 5000), (8, 40000)), J("TestC19Hist", (2, 600), (8, 5000), steps=35)],
-                rule="handles job: one case = a sequence of open-RW/open-RO/close/publish/read-only queries/failing opens (flipped index flags, corrupt index with Check, missing directory) over three handle slots, checked against the lock matrix; history job: read-only sessions (1-3 handles, optional index removal) inside C01-style histories with full observation against the model, ErrReadonly, byte comparison of *.log; non-trivial = a failed open followed by a successful one, or >=2 simultaneous read-only handles (handles job) / a read-only session on a multi-segment log (history job); distinct by case hash"),
+                rule="handles job: one case = a sequence of open-RW/open-RO/close/publish/read-only queries/failing opens (flipped index flags, corrupt index with Check, missing directory) over three handle slots, checked against the lock matrix; history job: read-only sessions (1-3 handles, optional index removal) inside C01-style histories with full observation against the model, ErrReadonly, byte comparison of *.log; non-trivial = a failed open followed by a successful one, or >=2 simultaneous read-only handles (handles job) / a read-only session on a multi-segment log (history job); distinct by case hash. Handles job also: Backup (into the handle's own directory under four spellings, into another directory), GC and Sync on read-only handles with byte comparison of *.log; read-only open of a damaged head with Check/Recover; reads that fail on a damaged segment, the file repaired, reads again, Close, then a read-write Open must succeed"),
     "C15": dict(level="exploration", jobs=[J("TestC15", (4, 1500), (16, 12000), steps=40)],
-                rule="one case = one history biased to FindBy*/TrimBy* (offset, count, size on single-version logs, age) in single, Multi and MultiOffsets variants with bounds below/inside/above the live range; prefix and bound predicates from the property; non-trivial = a trim removed messages on a state with >=2 segments; distinct by trace hash"),
+                rule="one case = one history biased to FindBy*/TrimBy* (offset, count, size on single-version logs, age) in single, Multi and MultiOffsets variants with bounds below/inside/above the live range; prefix and bound predicates from the property; non-trivial = a trim removed messages on a state with >=2 segments; distinct by trace hash. Dimensions drawn per case or step in every history job: index configuration; rollover size (incl. exactly the head's size, +-1); NewSegmentsVersion/KeepRewriteVersion/EagerVersionMigrate/Check/Recover/AutoSync re-drawn at every open; index files removed and segment files replaced by symbolic links while closed; directory name (glob/shell characters) and spelling; message times monotone / arbitrary / zero (stamped by the log) / far future / with nanoseconds and a zone / before 1970; keys incl. nil, empty, hash collisions and keys of 300, 5000 and 70000 bytes; values up to 70 KB; a rejected (too big) message at a drawn position of a batch; offsets and bounds up to MaxInt64; nil map/slice; Multi calls with the library's back-off or one that fails / cancels; the invariant after every step or only every n-th (lazy state); read-only sessions incl. GC; a missing key/value is handed out the same way (nil or empty) every time"),
     "C16": dict(level="exploration", jobs=[J("TestC16", (4, 1500), (16, 12000), steps=40)],
-                rule="one case = one history over <=5 keys (nil, collision pair) with tombstones, message times on an hour grid relative to the run start so Compact(age) is clock-insensitive; latest-value map before/after and allowed-removal predicates; non-trivial = a compaction removed messages and met a tombstone or a multi-segment log; distinct by trace hash"),
+                rule="one case = one history over <=5 keys (nil, collision pair) with tombstones, message times on an hour grid relative to the run start so Compact(age) is clock-insensitive; latest-value map before/after and allowed-removal predicates; non-trivial = a compaction removed messages and met a tombstone or a multi-segment log; distinct by trace hash. Dimensions drawn per case or step in every history job: index configuration; rollover size (incl. exactly the head's size, +-1); NewSegmentsVersion/KeepRewriteVersion/EagerVersionMigrate/Check/Recover/AutoSync re-drawn at every open; index files removed and segment files replaced by symbolic links while closed; directory name (glob/shell characters) and spelling; message times monotone / arbitrary / zero (stamped by the log) / far future / with nanoseconds and a zone / before 1970; keys incl. nil, empty, hash collisions and keys of 300, 5000 and 70000 bytes; values up to 70 KB; a rejected (too big) message at a drawn position of a batch; offsets and bounds up to MaxInt64; nil map/slice; Multi calls with the library's back-off or one that fails / cancels; the invariant after every step or only every n-th (lazy state); read-only sessions incl. GC; a missing key/value is handed out the same way (nil or empty) every time"),
     "C17": dict(level="exploration", jobs=[J("TestC17", (4, 450), (16, 4000), steps=40)],
-                rule="one case = one history where every reopen re-draws NewSegmentsVersion/KeepRewriteVersion/EagerVersionMigrate and Migrate runs to either version; model unchanged across migration (full observation), version byte of every segment file checked after migrate/eager open/publish/delete, migrate twice == once; non-trivial = both versions present at once and a delete or migration afterwards; distinct by trace hash"),
+                rule="one case = one history where every reopen re-draws NewSegmentsVersion/KeepRewriteVersion/EagerVersionMigrate and Migrate runs to either version; model unchanged across migration (full observation), version byte of every segment file checked after migrate/eager open/publish/delete, migrate twice == once; non-trivial = both versions present at once and a delete or migration afterwards; distinct by trace hash. Dimensions drawn per case or step in every history job: index configuration; rollover size (incl. exactly the head's size, +-1); NewSegmentsVersion/KeepRewriteVersion/EagerVersionMigrate/Check/Recover/AutoSync re-drawn at every open; index files removed and segment files replaced by symbolic links while closed; directory name (glob/shell characters) and spelling; message times monotone / arbitrary / zero (stamped by the log) / far future / with nanoseconds and a zone / before 1970; keys incl. nil, empty, hash collisions and keys of 300, 5000 and 70000 bytes; values up to 70 KB; a rejected (too big) message at a drawn position of a batch; offsets and bounds up to MaxInt64; nil map/slice; Multi calls with the library's back-off or one that fails / cancels; the invariant after every step or only every n-th (lazy state); read-only sessions incl. GC; a missing key/value is handed out the same way (nil or empty) every time. Every case mixes versions (reopen prefers the other NewSegmentsVersion); the index layout rule of C13 is checked at every close"),
     "C20": dict(level="exploration", jobs=[J("TestC20", (4, 600), (16, 5000), steps=40)],
-                rule="one case = one history with Log.Backup / package Backup into a fresh directory, or into the previous one when only publishes happened since; Check passes, the opened backup is fully observed against the model at the time of the call, source files byte- and mtime-identical (missing index files may be rebuilt); non-trivial = a repeated backup with a rollover in between, or a source with an emptied head / rebased segment; distinct by trace hash"),
+                rule="one case = one history with Log.Backup / package Backup into a fresh directory, or into the previous one when only publishes happened since; Check passes, the opened backup is fully observed against the model at the time of the call, source files byte- and mtime-identical (missing index files may be rebuilt); non-trivial = a repeated backup with a rollover in between, or a source with an emptied head / rebased segment; distinct by trace hash. Dimensions drawn per case or step in every history job: index configuration; rollover size (incl. exactly the head's size, +-1); NewSegmentsVersion/KeepRewriteVersion/EagerVersionMigrate/Check/Recover/AutoSync re-drawn at every open; index files removed and segment files replaced by symbolic links while closed; directory name (glob/shell characters) and spelling; message times monotone / arbitrary / zero (stamped by the log) / far future / with nanoseconds and a zone / before 1970; keys incl. nil, empty, hash collisions and keys of 300, 5000 and 70000 bytes; values up to 70 KB; a rejected (too big) message at a drawn position of a batch; offsets and bounds up to MaxInt64; nil map/slice; Multi calls with the library's back-off or one that fails / cancels; the invariant after every step or only every n-th (lazy state); read-only sessions incl. GC; a missing key/value is handed out the same way (nil or empty) every time. The previous directory is also reused across sessions, GC and Sync; backups also through a read-only handle, into the wiped directory of the previous backup, and the last three earlier backups are re-opened after every backup"),
 }
 
 ASSUMPTIONS = {
